@@ -40,8 +40,7 @@ TRUSTED = ["hand model NiVerif/Model/Units.lean (dictionary, attribute get/set, 
            "oracle only"]
 ASSUMPTIONS = ["units written through the dictionary are str (a non-str entry makes the attribute's own assertion fail; "
                "compared with the model, not judged by the oracle)",
-               "XYData equality is NumPy value equality: cross-dtype pairs are generated from values exactly representable "
-               "in both dtypes"]
+               "XYData equality across dtypes is judged by Python's exact comparison of the values (tolist)"]
 
 UD, CN, UDX, UDY = "NI_UnitDescription", "NI_ChannelName", "NI_UnitDescription_X", "NI_UnitDescription_Y"
 
@@ -470,6 +469,28 @@ def run_xy(ctx, lines, expect):
             lines.append(f"xyfrom {kx}:{ndx}:{nx}:{tx} {ky}:{ndy}:{ny}:{ty} {'-' if req is None else req[0]}")
             expect.append("ok" if r[0] == "ok" else "err " + r[1])
         ctx.case(("xy-from", kx, ndx, nx, tx, ky, ndy, ny, ty))
+    # equality across dtypes is equality of the VALUES: integers that no float64 / float32 holds, unsigned against signed 64-bit
+    big = [((2 ** 53 + 1, np.int64), (2.0 ** 53, np.float64)), ((2 ** 53 + 1, np.int64), (2 ** 53 + 1, np.int64)), ((2 ** 53, np.int64), (2.0 ** 53, np.float64)),
+           ((2 ** 24 + 1, np.int32), (2.0 ** 24, np.float32)), ((2 ** 24 + 1, np.int32), (float(2 ** 24 + 1), np.float64)),
+           ((2 ** 63 + 1, np.uint64), (2.0 ** 63, np.float64)), ((2 ** 64 - 1, np.uint64), (-1, np.int64)), ((2 ** 63, np.uint64), (-2 ** 63, np.int64)),
+           ((2 ** 62 + 1, np.uint64), (2 ** 62 + 1, np.int64)), ((-(2 ** 53) - 1, np.int64), (-(2.0 ** 53), np.float64)),
+           ((0.1, np.float32), (0.1, np.float64)), ((16777217, np.int64), (16777216.0, np.float32)), ((3, np.int8), (3.0, np.float64))]
+    for (va, ta), (vb, tb) in big:
+        for axis in ("x", "y"):
+            for swap in (False, True):
+                one, two = np.array([1, va], ta), np.array([1, vb], tb)
+                if swap:
+                    one, two = two, one
+                same = np.array([1, 2], np.int32)
+                a = XYData(one, np.array([1, 2], one.dtype)) if axis == "x" else XYData(np.array([1, 2], one.dtype), one)
+                b = XYData(two, np.array([1, 2], two.dtype)) if axis == "x" else XYData(np.array([1, 2], two.dtype), two)
+                req = one.tolist() == two.tolist()
+                r = outcome(operator.eq, a, b)
+                ctx.case(("xy-eq-cross-dtype", str(va), str(one.dtype), str(vb), str(two.dtype), axis, swap))
+                ctx.count("xy-eq", "cross-dtype " + str(req))
+                if r != ("ok", req) or (a != b) is not (not req):
+                    ctx.violation(what="XYData equality across dtypes is not equality of the values", axis=axis, a=f"{one.tolist()} {one.dtype}", b=f"{two.tolist()} {two.dtype}",
+                                  observed=show(r), required=repr(req))
     # equality
     VALS = [0, 1, 2, -1, 0.5, -0.5, 3, float("nan"), float("inf"), float("-inf")]
     for i in range(300 if ctx.quick else 6000):
